@@ -134,6 +134,16 @@ CHECKS["C20"] = dict(
     technique="bounded symbolic execution with recording / write-monitoring stubs + z3 path feasibility; replay on real code",
     ref="5/C20")
 
+CHECKS["C12"] = dict(
+    text="Bounded parametric family: the real WingSegment / Airplane geometry code runs with symbolic semispan, sweep, dihedral, twist, linear chord, ll_offset and connection offsets "
+         "(y_offset, dx, dz; children attached at tip and at root); z3 compares every node, control point, node chord, mean section chord, section-area sum, twist/dihedral/sweep at control "
+         "points, the left/right mirror relation and the default reference values with the documented curve (1e-9 absolute where concrete parameters round differently). "
+         "Quarter-chord-point wings are covered by a concrete run of the real code.",
+    note="Constant sweep/dihedral/twist and linear chord only; trigonometric atoms with ranges from the angle box; with chained segments the (y,z) parameters are concrete; piecewise distributions, "
+         "elliptic chord, Kuchemann, callables, CSV and swept-section unit vectors are outside.",
+    technique="bounded symbolic execution of the real geometry generation with symbolic parameters + z3 vs the documented curve; replay on real code",
+    ref="5/C12")
+
 NOT_APPLICABLE = {
     "C18": "classical lifting-line limits: a convergence statement about the N>=20 discrete solution (value and rate under grid refinement); no bounded SMT encoding of the 40x40 transcendental system is within reach and the small N the engine handles is where the claim is not expected to hold",
 }
